@@ -713,10 +713,13 @@ type C19Idle struct {
 	ReaderOn bool  `json:"reader_on"` // a reader is blocked in Read when the cleaner runs
 	AgeSec   int64 `json:"age_sec"`   // age of the connection's last activity at the tick, relative to the timeout (-2..+2 s)
 	Ticks    int   `json:"ticks"`
+	// Fresh: the connection has never carried an envelope when it goes idle (it was created by NewConnection and only
+	// ever had a reader blocked on it, or deliveries parked for it)
+	Fresh bool `json:"fresh,omitempty"`
 }
 
 func genC19Idle(t *rapid.T) C19Idle {
-	return C19Idle{Parked: rapid.IntRange(0, 3).Draw(t, "parked"), ReaderOn: rapid.Bool().Draw(t, "reader"), AgeSec: rapid.Int64Range(-2, 2).Draw(t, "age"), Ticks: rapid.IntRange(1, 3).Draw(t, "ticks")}
+	return C19Idle{Parked: rapid.IntRange(0, 3).Draw(t, "parked"), ReaderOn: rapid.Bool().Draw(t, "reader"), AgeSec: rapid.Int64Range(-2, 2).Draw(t, "age"), Ticks: rapid.IntRange(1, 3).Draw(t, "ticks"), Fresh: rapid.IntRange(0, 2).Draw(t, "fresh") == 0}
 }
 
 func execC19Idle(t *testing.T, c C19Idle) (v Verdict) {
@@ -752,22 +755,28 @@ func execC19Idle(t *testing.T, c C19Idle) (v Verdict) {
 			codes = append(codes, rec.Code)
 			mu.Unlock()
 		}
-		// establish the connection with one delivered envelope (this stamps its last activity)
-		d0 := make(chan struct{})
-		go post(100, d0)
-		kit.Settle()
-		mu.Lock()
-		rw := conn
-		mu.Unlock()
-		if rw == nil {
-			v.failf("onConnect was not called for the first envelope")
-			return
+		var rw goat.RpcReadWriter
+		if c.Fresh {
+			// a connection that exists but has never completed a Read or a Write
+			rw = goh.NewConnection("peer")
+		} else {
+			// establish the connection with one delivered envelope (this stamps its last activity)
+			d0 := make(chan struct{})
+			go post(100, d0)
+			kit.Settle()
+			mu.Lock()
+			rw = conn
+			mu.Unlock()
+			if rw == nil {
+				v.failf("onConnect was not called for the first envelope")
+				return
+			}
+			if _, err := rw.Read(context.Background()); err != nil {
+				v.failf("first read failed: %v", err)
+				return
+			}
+			kit.Settle()
 		}
-		if _, err := rw.Read(context.Background()); err != nil {
-			v.failf("first read failed: %v", err)
-			return
-		}
-		kit.Settle()
 		// park further deliveries / a reader
 		var dones []chan struct{}
 		for i := 0; i < c.Parked; i++ {
@@ -819,7 +828,7 @@ func execC19Idle(t *testing.T, c C19Idle) (v Verdict) {
 	if c.ReaderOn && readerReturned && readerErr == nil {
 		v.failf("reader returned an envelope that nobody sent")
 	}
-	v.Info = kit.CaseInfo{Labels: []string{fmt.Sprintf("idle.parked=%d", c.Parked), fmt.Sprintf("idle.expired=%v", expired), fmt.Sprintf("idle.reader=%v", c.ReaderOn)}, NonTrivial: true, Key: fmt.Sprintf("%+v", c), Sample: c}
+	v.Info = kit.CaseInfo{Labels: []string{fmt.Sprintf("idle.parked=%d", c.Parked), fmt.Sprintf("idle.expired=%v", expired), fmt.Sprintf("idle.reader=%v", c.ReaderOn), fmt.Sprintf("idle.fresh=%v", c.Fresh)}, NonTrivial: true, Key: fmt.Sprintf("%+v", c), Sample: c}
 	return
 }
 
